@@ -350,25 +350,12 @@ class CompleteStageHandler(
 
                 logger.info("Stage %s completed with status %s", stage.name, status)
 
-                # Handle FAILED_CONTINUE propagation to parent
-                if (
-                    status == WorkflowStatus.FAILED_CONTINUE
-                    and stage.synthetic_stage_owner is not None
-                    and not stage.allow_sibling_stages_to_continue_on_failure
-                    and stage.parent_stage_id is not None
-                ):
-                    # Atomic: store stage + propagate failure to parent
-                    with self.repository.transaction(self.queue) as txn:
-                        txn.store_stage(stage)
-                        self._record_completion_event(stage, status)
-                        txn.push_message(
-                            CompleteStage(
-                                execution_type=message.execution_type,
-                                execution_id=message.execution_id,
-                                stage_id=stage.parent_stage_id,
-                            )
-                        )
-                elif status in {
+                # A synthetic stage that ends FAILED_CONTINUE continues like any other
+                # continuable status (its downstream siblings, else ContinueParentStage):
+                # the parent cannot complete while its own core work is still pending,
+                # so handing it a bare CompleteStage instead left it RUNNING for ever.
+                # determine_status() reports the parent FAILED_CONTINUE at the end.
+                if status in {
                     WorkflowStatus.SUCCEEDED,
                     WorkflowStatus.FAILED_CONTINUE,
                     WorkflowStatus.SKIPPED,
